@@ -169,6 +169,8 @@ class VirtualLoop(base_events.BaseEventLoop):
         self.on_post_phase = None  # callback when the post phase starts
         self.at_iter = {}  # iteration number -> callable (e.g. cancel injection)
         self.fire_log = []  # labels in delivery order, ('time', t) for clock advances
+        self.fire_seq = []  # parallel to fire_log: global sequence numbers (if seq_fn is set)
+        self.seq_fn = None
         self.max_outstanding = 0
         self.created_tasks = []
         self.unhandled = []  # contexts passed to the loop exception handler
@@ -203,6 +205,7 @@ class VirtualLoop(base_events.BaseEventLoop):
     def fire(self, idx):
         label, fire = self.pending.pop(idx)
         self.fire_log.append(label)
+        self.fire_seq.append(self.seq_fn() if self.seq_fn else 0)
         fire()
 
     def has_future_timer(self):
@@ -217,6 +220,7 @@ class VirtualLoop(base_events.BaseEventLoop):
         if whens:
             self._vtime = min(whens)
             self.fire_log.append(('time', self._vtime))
+            self.fire_seq.append(self.seq_fn() if self.seq_fn else 0)
 
     # --- the selector
     def _on_select(self, timeout):
